@@ -84,7 +84,7 @@ ASSUMPTIONS = [
     "NMT commands 129/130 and the states a node reports initially are C11's business: initial nmt.state is taken "
     "from the object, only changes are predicted",
 ]
-BUDGET = {"quick": 40, "thorough": 330}
+BUDGET = {"quick": 150, "thorough": 330}
 
 NCB = 6
 # Hypothesis examples per shard: short histories, long histories (int list), long histories (bytes), scanner sequences
@@ -460,7 +460,7 @@ def run_hist(case) -> Outcome:
                 via = op["via"]
                 stats["frames" if via in ("notify", "listener") else "special"] += 1
                 deliver(op["id"], bytes(op["data"]), op["ts"], via, step)
-            elif kind in ("add_remote", "add_remote_int", "create_local", "set_local"):
+            elif kind in ("add_remote", "add_remote_int", "add_remote_eds", "create_local", "set_local"):
                 n = op["n"]
                 if kind == "add_remote":
                     node = canopen.RemoteNode(n, canopen.ObjectDictionary())
@@ -480,6 +480,17 @@ def run_hist(case) -> Outcome:
                     if kind == "add_remote_int":
                         def call():
                             box["node"] = net.add_node(n, canopen.ObjectDictionary())
+                    elif kind == "add_remote_eds":
+                        # the dictionary is to be uploaded from the device first; nobody answers, so the
+                        # node is created with an empty dictionary - a node add like any other
+                        def call():
+                            from canopen.sdo import SdoClient
+                            keep = SdoClient.RESPONSE_TIMEOUT
+                            SdoClient.RESPONSE_TIMEOUT = 0.001
+                            try:
+                                box["node"] = net.add_node(n, upload_eds=True)
+                            finally:
+                                SdoClient.RESPONSE_TIMEOUT = keep
                     else:
                         def call():
                             box["node"] = net.create_node(n, _local_od(serial))
@@ -492,7 +503,7 @@ def run_hist(case) -> Outcome:
                         bad(f"{kind}/raises", f"{kind} node {n}: {type(e).__name__}: {e}", step)
                         break
                     node = box["node"]
-                    o = new_obj("remote" if kind == "add_remote_int" else "local", n, node)
+                    o = new_obj("remote" if kind in ("add_remote_int", "add_remote_eds") else "local", n, node)
                     if old is not None:
                         m.detach(old)
                         stats["removed"] += 1
@@ -794,7 +805,62 @@ def run_case(case) -> Outcome:
         return run_id(case)
     if fam == "scan":
         return run_scan(case)
+    if fam == "bus":
+        return run_bus(case)
     raise ValueError(fam)
+
+
+_bus_serial = [0]
+
+
+def run_bus(case) -> Outcome:
+    """Frames received through a real python-can bus (interface 'virtual') and the library's own
+    notifier thread, over a history of connect / disconnect / connect: a subscription made on the
+    Network object is served in every connected phase."""
+    import os
+    import time
+
+    import can
+    import canopen
+    D = []
+    _bus_serial[0] += 1
+    channel = f"verif-c10-{os.getpid()}-{_bus_serial[0]}"
+    net = canopen.Network()
+    net.NOTIFIER_CYCLE = 0.01
+    got = []
+    ids = sorted({f[0] for ph in case["phases"] for f in ph})
+    for can_id in ids:
+        net.subscribe(can_id, lambda i, d, t: got.append((i, bytes(d))))
+    try:
+        for k, frames in enumerate(case["phases"]):
+            net.connect(interface="virtual", channel=channel)
+            peer = can.Bus(interface="virtual", channel=channel)
+            try:
+                want = []
+                mark = len(got)
+                for can_id, data in frames:
+                    peer.send(can.Message(arbitration_id=can_id, data=bytes(data), is_extended_id=can_id > 0x7FF))
+                    want.append((can_id, bytes(data)))
+                end = time.monotonic() + 5.0
+                while len(got) - mark < len(want) and time.monotonic() < end:
+                    time.sleep(0.002)
+                time.sleep(0.01)
+                if got[mark:] != want:
+                    D.append(Discrepancy("C10/bus/reception",
+                                         f"connected phase {k + 1} of {len(case['phases'])}: frames sent by a peer "
+                                         f"{[(hex(i), d.hex()) for i, d in want]}, subscribed callbacks saw "
+                                         f"{[(hex(i), d.hex()) for i, d in got[mark:]]}"))
+                    break
+            finally:
+                peer.shutdown()
+                net.disconnect()
+    finally:
+        if net.bus is not None:
+            try:
+                net.disconnect()
+            except Exception:
+                pass
+    return Outcome(len(case["phases"]) > 1, f"bus/phases{len(case['phases'])}", D)
 
 
 # ---- generation --------------------------------------------------------------
@@ -873,7 +939,8 @@ def decode(nodes, free11, free29, raw):
                         "via": via})
         elif kind in (10, 11):
             n = pick_node(b)
-            what = (("add_remote", "add_remote_int") if kind == 10 else ("create_local", "set_local"))[a % 2]
+            what = (("add_remote", "add_remote_int", "add_remote", "add_remote_eds") if kind == 10
+                    else ("create_local", "set_local"))[a % (4 if kind == 10 else 2)]
             ops.append({"op": what, "n": n})
             objs.append(("remote" if kind == 10 else "local", n, []))
             attached[n] = len(objs) - 1
@@ -1027,6 +1094,9 @@ def showcase():
         {"op": "frame", "id": 0, "data": bytes([128, 0]), "ts": 108.5, "via": "listener"}]}
     for can_id in (0x7FF, 0x800, 0x702, 0x10000702):
         yield {"fam": "id", "id": can_id}
+    for phases in ([[(0x123, b"\x01")]], [[(0x123, b"\x01\x02")], [(0x123, b"\x03")]],
+                   [[(0x702, b"\x05"), (0x1FFFFFFF, b"")], [(0x702, b"\x7f")], [(0x80, b"\x00" * 8), (0x702, b"\x04")]]):
+        yield {"fam": "bus", "phases": [[[i, d] for i, d in ph] for ph in phases]}
     yield {"fam": "scan", "ids": [0x702, 0x10000703, 0x582, 0x604, 0x184, 0x700, 0x81, 0x702], "resets": [7]}
 
 
